@@ -41,4 +41,10 @@ TEXT = {
         "level_text": "Generated-input search: advertisements over all optional parts and 0..4 extended providers are signed with the library (ad signer = provider or separate publisher key, all four key types), optionally mutated once (each signed value, key/payload/signature bytes of any envelope through the protobuf, a raw bit flip, an entry signed by a key other than the named identity's, the main entry re-signed by a key other than the ad signer's), passed through none/DAG-JSON/DAG-CBOR, and VerifySignature must succeed with the signer's ID exactly when nothing was altered, the main provider is listed and all entries are correctly keyed.",
         "level_note": "Trusted: libp2p record.Seal and the envelope protobuf used to build alterations. One value is changed per case (the payload concatenates values without delimiters; the property excludes neighbouring simultaneous changes).",
     },
+    "C13": {
+        "engine": "h23",
+        "technique": "property-based testing (rapid): codec round trips with a semantic equality, CID stability, generic-vs-typed load agreement; byte-mutation decoding; native go fuzzing (thorough)",
+        "level_text": "Generated-input search: advertisements (all combinations of optional parts, present-but-empty extended providers, maximal context ID / metadata, arbitrary signature bytes) and entry chunks (0..200 multihashes, with and without next) are encoded in DAG-JSON and DAG-CBOR, decoded and compared with a hand-written semantic equality; stored twice through a link system (same CID), loaded with the generic and the typed prototype and through BytesTo...; decoders are fed mutated encodings and raw bytes with the oracle 'error, or re-encodable to an equal value, never a panic'. Thorough adds coverage-guided fuzzing of the decoder oracle.",
+        "level_note": "Trusted: go-ipld-prime codecs and link system (the round trip goes through them), the harness's equality (nil == empty for lists and bytes; presence of optional parts preserved).",
+    },
 }
